@@ -3,6 +3,7 @@ import Driver.AstJson
 import Driver.SchemaJson
 import GqlModel.Cost
 import GqlModel.OverlapCost
+import GqlModel.GraphCost
 /-! Driver for C19 (and the plan part of C09):
 `{"schema":<SchemaDesc>,"doc":<astjson document>,"op":"name","vars":{"v":true,…},"world":<node>}` with
 `node = [[responseKey, runtimeType, node], …]`  →  the model's counters after PlanQuery and after executing the
@@ -54,6 +55,47 @@ def handle (j : Json) : Except String Json := do
       let st := (Validate.Overlap.overlapM s doc).1
       Json.mkObj [("nFC", Json.num st.nFC), ("cntFF", Json.num st.cntFF), ("cntBF", Json.num st.cntBF), ("oof", Json.bool st.oof)]
     else Json.null
+  -- graph rules (c02b's model + the step counters of GqlModel/GraphCost.lean), on request
+  let wantGraph := match j.getObjVal? "graph" with | .ok (.bool b) => b | _ => false
+  let wantWork := match j.getObjVal? "graphWork" with | .ok (.bool b) => b | _ => true
+  let gr := if wantGraph then
+      let tbl := Validate.Graph.fragDefs doc
+      let ops := Validate.Graph.opDefs doc
+      let cr := Validate.Graph.cycleRunC tbl
+      let nO := Validate.Graph.nOps doc
+      let nF := Validate.Graph.nFragDefs doc
+      let nN := Validate.Graph.docNodes doc
+      let nS := Validate.Graph.docSpreads doc
+      let nU := Validate.Graph.docUsages s doc
+      Json.mkObj [
+        ("ops", Json.arr (ops.map (fun o => Json.arr #[
+          Json.num (Validate.Graph.recursivelyReferenced tbl o.sel).length,
+          Json.num (Validate.Graph.recursiveUsages s tbl o).length,
+          Json.num (Validate.Graph.fragmentSpreads o.sel).length])).toArray),
+        ("frags", Json.arr (tbl.map (fun f => Json.arr #[
+          Json.num (Validate.Graph.fragmentSpreads f.sel).length,
+          Json.num (Validate.Graph.varUsagesFrag s f).length])).toArray),
+        ("cyc", Json.arr #[Json.num cr.2.calls, Json.num cr.2.iters, Json.num cr.2.errLen, Json.num cr.1.errs.length]),
+        ("cycOof", Json.bool cr.1.oof),
+        ("cached", Json.num (if wantWork then Validate.Graph.graphWorkCached s doc else 0)),
+        ("uncached", Json.num (if wantWork then Validate.Graph.graphWorkUncached s doc else 0)),
+        ("boundCached", Json.num (Validate.Graph.graphBoundCached nO nF nN nS nU)),
+        ("boundUncached", Json.num (Validate.Graph.graphBoundUncached nO nF nN)),
+        ("sizes", Json.arr #[Json.num nO, Json.num nF, Json.num nN, Json.num nS, Json.num nU]),
+        -- what the proposed verif sites (notes/agents/C19-graph-hooks.diff) count during ONE ValidateDocument with all
+        -- rules (every helper result cached): FragmentSpreads steps (exact when fragment names are unique: every
+        -- definition's set is asked for once), closure pops, closure spreads, cycle calls, cycle iterations,
+        -- VariableUsages traversals (operations + distinct fragments some operation reaches)
+        ("hooks", Json.arr #[
+          Json.num ((ops.map (fun o => Validate.Graph.fsSteps o.sel)).sum + (tbl.map (fun f => Validate.Graph.fsSteps f.sel)).sum),
+          Json.num ((ops.map (fun o => 1 + (Validate.Graph.recursivelyReferenced tbl o.sel).length)).sum),
+          Json.num ((ops.map (fun o => Validate.Graph.nSpreadsSet o.sel +
+            ((Validate.Graph.recursivelyReferenced tbl o.sel).map (fun f => Validate.Graph.nSpreadsSet f.sel)).sum)).sum),
+          Json.num cr.2.calls, Json.num cr.2.iters,
+          Json.num (ops.length + (ops.foldl (fun acc o => Validate.Graph.unionNew acc
+            ((Validate.Graph.recursivelyReferenced tbl o.sel).map (·.name.value))) []).length)]),
+        ("uniqueNames", Json.bool (Validate.Graph.uniqueFragNames doc))]
+    else Json.null
   return Json.mkObj [
     ("plan", Json.arr #[Json.num pc.collect, Json.num pc.pms]),
     ("exec", Json.arr #[Json.num r.counts.collect, Json.num r.counts.pms]),
@@ -66,7 +108,7 @@ def handle (j : Json) : Except String Json := do
     ("sizes", Json.arr #[Json.num (Validate.Overlap.nFieldsDoc doc), Json.num (Validate.Overlap.nSets doc),
       Json.num (Validate.Overlap.nSpreadNames doc), Json.num (Validate.Overlap.nFrags doc)]),
     ("locsDistinct", Json.bool (Validate.Overlap.locsDistinct doc)),
-    ("overlap", ov)]
+    ("overlap", ov), ("graph", gr)]
 
 end Driver.C19
 
